@@ -12,6 +12,8 @@ package reader
 // step type carries it, and every function used as a step is verified against that contract.
 //@ guarded Reader.skipPace, Reader.skipImages, Reader.aaChallenge by mu for C20
 //@ immutable Reader.status, Reader.nfc, Reader.cscaCertPool for C20
+// the transport is used for a whole read under the exclusive hold (two reads on one Reader must not interleave on the link)
+//@ exclusive Reader.nfc by mu for C20
 
 // what every step may rely on: a transport that is set up, and a result object to fill in
 //@ pred readerOK(reader *Reader) { reader != nil && validNfc(reader.nfc) && reader.nfc.readFileMaxChunks >= 0 && reader.nfc.readFileMaxTlvLength <= 65535 && reader.cscaCertPool != nil }
@@ -61,24 +63,24 @@ package reader
 //@   safety all
 
 //@ func NewReaderState
-//@   props C20
+//@   props C20 C11
 //@   ensures result != nil && fresh(result) && result.docEx != nil && fresh(result.docEx) && result.password == password
 //@   ensures "empty-document": result.docEx.Document.Mf.Lds1.Sod == nil && result.docEx.Document.Mf.CardSecurity == nil && result.docEx.Document.Mf.Lds1.Dg14 == nil && result.docEx.Document.Mf.CardAccess == nil
 //@   assigns nothing
 //@   safety all
 
 //@ func (reader *Reader) report
-//@   props C20
+//@   props C20 C11
 //@   requires reader != nil
 //@   assigns nothing
 //@   safety all
 //@ func (reader *Reader) reportPhase
-//@   props C20
+//@   props C20 C11
 //@   requires reader != nil
 //@   assigns nothing
 //@   safety all
 //@ func (reader *Reader) reportDataGroup
-//@   props C20
+//@   props C20 C11
 //@   requires reader != nil
 //@   assigns nothing
 //@   safety all
@@ -91,7 +93,7 @@ package reader
 //@   ensures "configuration-untouched": reader.skipPace == old(reader.skipPace) && reader.skipImages == old(reader.skipImages) && reader.aaChallenge == old(reader.aaChallenge)
 
 //@ func runSteps
-//@   props C20
+//@   props C20 C11
 //@   requires readerOK(reader) && stateOK(state) && reader.mu.held
 //@   ensures "lock-still-held": reader.mu.held
 //@   ensures "reader-and-state-still-usable": readerOK(reader) && stateOK(state)
@@ -99,73 +101,102 @@ package reader
 //@   safety bounds overflow      // a nil step would panic (contained by ReadDocument's recover); it is not a locking matter
 
 //@ func recordAtrAts(reader, state)
-//@   props C20
+//@   props C20 C11
 //@   implements ReaderStep
 //@   safety all
 
 //@ func selectMF(reader, state)
-//@   props C20
+//@   props C20 C11
 //@   implements ReaderStep
+//@   ensures "select-mf-errors-are-tolerated": err == nil
 //@   safety all
 
 //@ func selectMrtdApplication(reader, state)
-//@   props C20
+//@   props C20 C11
 //@   implements ReaderStep
+//@   ensures "application-selected-or-error": err == nil ==> reader.nfc.lastSW == 36864 || reader.nfc.lastSW == 27266
 //@   safety all
 
 //@ func readEfSod(reader, state)
-//@   props C20
+//@   props C20 C11
 //@   implements ReaderStep
+//@   ensures "security-object-held-or-the-chip-said-not-found": err == nil && state.docEx.Document.Mf.Lds1.Sod == nil ==> chipSaidNotFound(ref(reader.nfc), 285)
+//@   ensures "session-kept": reader.nfc.sm == old(reader.nfc.sm)
 //@   safety all
 
 //@ func readEfCom(reader, state)
-//@   props C20
+//@   props C20 C11
 //@   implements ReaderStep
+//@   ensures "held-or-the-chip-said-not-found": err == nil && state.docEx.Document.Mf.Lds1.Com == nil ==> chipSaidNotFound(ref(reader.nfc), 286)
+//@   ensures "session-kept": reader.nfc.sm == old(reader.nfc.sm)
 //@   safety all
 
 //@ func readEfDir(reader, state)
-//@   props C20
+//@   props C20 C11
 //@   implements ReaderStep
+//@   ensures "held-or-the-chip-said-not-found": err == nil && state.docEx.Document.Mf.Dir == nil ==> chipSaidNotFound(ref(reader.nfc), 12032)
+//@   ensures "session-kept": reader.nfc.sm == old(reader.nfc.sm)
 //@   safety all
 
 //@ func readEfCardAccess(reader, state)
-//@   props C20
+//@   props C20 C11
 //@   implements ReaderStep
+//@   ensures "held-or-the-chip-said-not-found": err == nil && state.docEx.Document.Mf.CardAccess == nil ==> chipSaidNotFound(ref(reader.nfc), 284)
+//@   ensures "session-kept": reader.nfc.sm == old(reader.nfc.sm)
 //@   safety all
 
 //@ func readLDS1dgs(reader, state)
-//@   props C20
+//@   props C20 C11
 //@   implements ReaderStep
+//@   ensures "needs-the-security-object": old(state.docEx.Document.Mf.Lds1.Sod) == nil ==> err != nil
+//@   ensures "session-kept": reader.nfc.sm == old(reader.nfc.sm)
 //@   loop 1 invariant readerOK(reader) && stateOK(state)
 //@   safety all
 
 //@ func performPace(reader, state)
-//@   props C20
+//@   props C20 C11
 //@   implements ReaderStep
+//@   ensures "errors-are-recorded-not-returned": err == nil
+//@   ensures "skipped-on-request": old(reader.skipPace) ==> reader.nfc.sm == old(reader.nfc.sm) && state.docEx.Session.PaceResult == old(state.docEx.Session.PaceResult) && state.docEx.Session.PaceCamResult == old(state.docEx.Session.PaceCamResult)
+//@   ensures "verdict-is-the-protocols": !old(reader.skipPace) && state.docEx.Session.PaceResult != nil ==> (state.docEx.Session.PaceResult.Success == (state.docEx.Session.PaceErr == nil))
+//@   ensures "session-only-from-a-successful-run": !old(reader.skipPace) && state.docEx.Session.PaceResult != nil && state.docEx.Session.PaceResult.Success ==> typeis(reader.nfc.sm, "*iso7816.SecureMessaging")
+//@   ensures "cam-verdict-only-with-pace-success": !old(reader.skipPace) && state.docEx.Session.PaceCamResult != nil ==> state.docEx.Session.PaceErr == nil && state.docEx.Session.PaceResult != nil && state.docEx.Session.PaceResult.Success
+//@        && state.docEx.Session.PaceCamResult.Success && state.docEx.Session.PaceCamResult.Evidence != nil
 //@   safety all
 
 //@ func performBac(reader, state)
-//@   props C20
+//@   props C20 C11
 //@   implements ReaderStep
+//@   ensures "errors-are-recorded-not-returned": err == nil
+//@   ensures "only-without-a-session": old(reader.nfc.sm) != nil ==> reader.nfc.sm == old(reader.nfc.sm) && state.docEx.Session.BacResult == old(state.docEx.Session.BacResult)
+//@   ensures "fallback-attempted-for-mrz-passwords": old(reader.nfc.sm) == nil && state.password.PasswordType == 1 ==> state.docEx.Session.BacResult != nil
+//@   ensures "verdict-is-the-protocols": old(reader.nfc.sm) == nil && state.docEx.Session.BacResult != nil ==> (state.docEx.Session.BacResult.Success == (state.docEx.Session.BacErr == nil))
+//@   ensures "no-session-unless-bac-succeeded": old(reader.nfc.sm) == nil && (state.docEx.Session.BacResult == nil || !state.docEx.Session.BacResult.Success) ==> reader.nfc.sm == nil
 //@   safety all
 
 //@ func performChipAuthentication(reader, state)
-//@   props C20
+//@   props C20 C11
 //@   implements ReaderStep
+//@   ensures "active-authentication-verdict-is-the-protocols": err == nil && state.docEx.Session.ActiveAuthResult != nil ==> (state.docEx.Session.ActiveAuthResult.Success == (state.docEx.Session.ActiveAuthErr == nil))
+//@   ensures "chip-authentication-only-if-nothing-completed": err == nil && (aaOK(state.docEx.Session) || old(camOK(state.docEx.Session))) ==> state.docEx.Session.ChipAuthResult == old(state.docEx.Session.ChipAuthResult)
 //@   safety all
 
 //@ func performPassiveAuthentication(reader, state)
-//@   props C20
+//@   props C20 C11
 //@   implements ReaderStep
+//@   ensures "errors-are-recorded-not-returned": err == nil
+//@   ensures "verdict-is-the-checks": state.docEx.Session.PassiveAuthResult != nil && (state.docEx.Session.PassiveAuthResult.Success == (state.docEx.Session.PassiveAuthErr == nil))
 //@   safety all
 
 //@ func verifyDocument(reader, state)
-//@   props C20
+//@   props C20 C11
 //@   implements ReaderStep
+//@   ensures "errors-are-recorded-not-returned": err == nil
+//@   ensures "recorded-verdict-is-the-completeness-check": state.docEx.Session.DocumentVerifyErr == nil ==> state.docEx.Document.Mf.Lds1.Dg1 != nil && state.docEx.Document.Mf.Lds1.Sod != nil
 //@   safety all
 
 //@ func (reader *Reader) ReadDocument
-//@   props C20
+//@   props C20 C11
 //@   requires readerOK(reader) && !reader.mu.held && password != nil
 //@   ensures "lock-released": !reader.mu.held
 //@   safety all
